@@ -395,19 +395,24 @@ func (w *world) applyInner(e simEvent) error {
 		}
 		return n.stepLoop(nil)
 	case "RC":
-		n.drivers[e.F].connect()
+		d := n.drivers[e.F]
+		d.guard("connect", d.connect)
 		return w.waitQuiet()
 	case "RS":
-		n.drivers[e.F].send(false)
+		d := n.drivers[e.F]
+		d.guard("send", func() { d.send(false) })
 		return w.waitQuiet()
 	case "RH":
-		n.drivers[e.F].send(true)
+		d := n.drivers[e.F]
+		d.guard("heartbeat", func() { d.send(true) })
 		return w.waitQuiet()
 	case "RR":
-		n.drivers[e.F].recv()
+		d := n.drivers[e.F]
+		d.guard("receive", d.recv)
 		return w.waitQuiet()
 	case "RF":
-		n.drivers[e.F].connFail(errSimClosed)
+		d := n.drivers[e.F]
+		d.guard("connfail", func() { d.connFail(errSimClosed) })
 		return w.waitQuiet()
 	case "CL":
 		return w.clientOp(n, e.S)
